@@ -155,6 +155,10 @@ extern "C" int LLVMFuzzerTestOneInput(const std::uint8_t* data, std::size_t size
     sc.tag("excluded_domain.path");
     return 0;
   }
+  if (c54::hugeSubdivision(text)) {
+    sc.tag("excluded_domain.huge_subdivision");
+    return 0;
+  }
   if (const char* k = c54::knownClass(text)) {
     if (c35::isActive(k)) {
       sc.tag((std::string("excluded_known.") + k).c_str());
